@@ -64,7 +64,7 @@ package swarm
 //@ modifies s.isClosed, s.conn.stat.NumStreams, contents(s.conn.streams.m), ghost.done(_)
 
 //@ func (c *Conn) doClose
-//@ prop C04
+//@ prop C04 C06
 //@ ensures c.streams.m == nil
 //@ ensures ghost.closed(c.conn)
 //@ ensures errCode == 0 ==> called(Close, 0) && arg(Close, 0, 0) == c.conn
@@ -75,6 +75,13 @@ package swarm
 //@ loop 0 invariant forall s *Stream :: has(streams, s) == old(has(c.streams.m, s))
 //@ loop 0 invariant forall s *Stream :: visited(0, s) ==> s.isClosed && ghost.reset(s.stream)
 //@ loop 0 invariant c.streams.m == nil && ghost.closed(c.conn) && c.conn == old(c.conn) && streams == old(c.streams.m)
+//@ noframe
+// C06: the removal of every closed connection reaches the connection-events emitter (Disconnected notification and
+// the connectedness event are derived there), whatever the transport's Close returned, and the swarm reference
+// taken in addConn is given back afterwards
+//@ closure 0
+//@ ensures called(RemoveConn, 0) && arg(RemoveConn, 0, 1) == c && ncalls(RemoveConn, 0) == 1
+//@ ensures called(Done, 0)
 //@ noframe
 
 //@ func (c *Conn) start
